@@ -215,7 +215,7 @@ def _resource_calls(fi, prefix: str, ci=None):
     `getattr(resource, self.<attr>)(...)` with <attr> a class-level string constant of *ci*."""
     rparam = fi.params[2] if len(fi.params) > 2 else "resource"
     out = []
-    for n in walk_local(fi.node):
+    for n in walk_local(fi):
         if not isinstance(n, ast.Call):
             continue
         if isinstance(n.func, ast.Attribute) and dotted(n.func.value) == rparam and n.func.attr.startswith(prefix):
@@ -257,9 +257,9 @@ def m4(ctx):
     concrete = [sbc] + sbc.all_subclasses()
     for pq, _ in SETTABLE:
         pc = ctx.P.cls(pq)
-        gv, sv = ctx.P.lookup_method(pc, "get_value"), ctx.P.lookup_method(pc, "set_value")
-        if gv is None or sv is None:
+        if ctx.P.lookup_method(pc, "get_value") is None or ctx.P.lookup_method(pc, "set_value") is None:
             raise AnalysisError("%s lacks get_value/set_value" % pq)
+        gv, sv = ctx.home_method(pq, "get_value"), ctx.home_method(pq, "set_value")
         g = _single_resource_call(gv, "get_", pc)
         s = _single_resource_call(sv, "set_", pc)
         ok = g is not None and s is not None and g[4:] == s[4:]
